@@ -1,10 +1,11 @@
 #!/bin/sh
 # tools/seedrun.sh <seed-id> <prop> [more props...] : run ./check <prop> against a scratch copy of /repo with seeded/<id>/patch.diff applied
 sid=$1; shift
+V=$(cd "$(dirname "$0")/.." && pwd)
 M=/root/scratch/seedrun_$sid
 rm -rf "$M"; mkdir -p "$M"; cp -r /repo/blackbird_python /repo/src /repo/blackbird_cpp /repo/Makefile "$M"/
-( cd "$M" && git init -q . >/dev/null 2>&1; git apply /verif/seeded/$sid/patch.diff ) || { echo "patch failed"; exit 3; }
-cd /verif
+( cd "$M" && git init -q . >/dev/null 2>&1; git apply $V/seeded/$sid/patch.diff ) || { echo "patch failed"; exit 3; }
+cd $V
 for p in "$@"; do
   VERIF_REPO=$M ./check $p > /root/scratch/seedrun_$sid.$p.log 2>&1; code=$?
   echo "$sid $p exit=$code $(grep -c '^VIOLATION' /root/scratch/seedrun_$sid.$p.log) violations: $(grep '^VIOLATION' /root/scratch/seedrun_$sid.$p.log | sed 's/.*replay=.*replay\///' | tr '\n' ' ' | cut -c1-300)"
